@@ -61,12 +61,50 @@ def apply(c):
                     RData::Empty(_) => Seq::empty(),
                 }
             }
-            open spec fn wf_dec(data: Seq<u8>, p: int, v: &Self, p2: int) -> bool { true }
+            /// RFC 1035 3.2.1: TYPE(2) CLASS(2) TTL(4) RDLENGTH(2) RDATA(RDLENGTH); `p` is the offset of TYPE.
+            /// The typed content is decoded from the message truncated at the end of the RDATA.
+            open spec fn wf_dec(data: Seq<u8>, p: int, v: &Self, p2: int) -> bool {
+                &&& 0 <= p && p + 10 <= data.len()
+                &&& p2 == p + 10 + be16(data[p + 8], data[p + 9])
+                &&& p2 <= data.len()
+                &&& ({
+                    let ty = type_of_code(be16(data[p], data[p + 1]));
+                    let d2 = data.subrange(0, p2);
+                    if ty == TYPE::OPT { v is OPT && rdata_dec(d2, p, ty, v, p2) }
+                    else if p2 == p + 10 { *v == RData::Empty(ty) }
+                    else { exists|p3: int| p + 10 <= p3 <= p2 && #[trigger] rdata_dec(d2, p + 10, ty, v, p3) }
+                })
+            }
 """)
+    c.sub(rel, "        fn parse_rdata<'a>(", """        /// the typed value `v` is what the decoder of record type `ty` reads at data[p..], stopping at p2
+        pub open spec fn rdata_dec(data: Seq<u8>, p: int, ty: TYPE, v: &RData, p2: int) -> bool {
+            match v {
+                $( RData::$i(d) => ty == TYPE::$i && $i::wf_dec(data, p, d, p2), )+
+                RData::NULL(c, d) => (ty == TYPE::NULL || ty == TYPE::Unknown(*c)) && *c == code_of_type(ty) && NULL::wf_dec(data, p, d, p2),
+                RData::Empty(_) => false,
+            }
+        }
+        /// ghost: type of the record as denoted by its variant / stored code
+        pub open spec fn rdata_type(v: &RData) -> TYPE {
+            match v {
+                $( RData::$i(_) => TYPE::$i, )+
+                RData::NULL(c, _) => type_of_code(*c),
+                RData::Empty(t) => *t,
+            }
+        }
 
-    # ---- parse_rdata: same cursor contract as the trait
+        fn parse_rdata<'a>(""")
+    c.contract(rel, "impl<'a> RData<'a> {", 'type_code', """
+                ensures r == rdata_type(self), // @C18:type-code-denotes
+""")
+    # ---- R7: the 42 `?` of parse_rdata, desugared (Verus' encoding of Try::branch makes the 42-arm function intractable)
+    c.sub(rel, "TYPE::$i => RData::$i($i::parse(data, position)?),",
+          "TYPE::$i => RData::$i(match $i::parse(data, position) { Ok(vx_v) => vx_v, Err(vx_e) => return Err(vx_e) }),")
+    c.log.append(('rewrite', rel, 'R7 x1 (parse_rdata arm: `E?` -> `match E { Ok(v) => v, Err(e) => return Err(e) }`; same error type, checked by rustc)'))
+    # ---- parse_rdata: cursor contract + the typed decoder relation
     c.contract(rel, None, 'parse_rdata', """
         requires *old(position) <= data.len(), data.len() <= isize::MAX,
         ensures r is Ok ==> *old(position) <= *final(position), // @C01:cursor-monotone
             r is Ok ==> *final(position) <= data.len(), // @C01:cursor-in-bounds
+            r is Ok ==> rdata_dec(data@, *old(position) as int, rdatatype, &r.unwrap(), *final(position) as int), // @C05:typed-content-decoded,C10:typed-content-decoded
 """)
